@@ -140,8 +140,16 @@ func (g *registrar) exec(res *regResult) {
 			b.provider.set(op.Adv)
 		}
 		res.AdvAt = b.provider.get()
-		ctx, cancel := context.WithTimeout(context.Background(), 5*time.Second)
-		defer cancel()
+		// The caller's context lives on after the call, as context.Background()
+		// or a server-lifetime context would: whatever the registration leaves
+		// open on the connection stays open (cancelled at teardown). Only a
+		// registration that has to give up on a dead backend gets a deadline.
+		ctx, cancel := context.WithCancel(context.Background())
+		if op.Fail == "dead" || mr.deadBackend(op.Target) {
+			cancel()
+			ctx, cancel = context.WithTimeout(context.Background(), 5*time.Second)
+		}
+		mr.addTeardown(cancel)
 		switch {
 		case op.Fail == "dead":
 			b.kill()
